@@ -464,12 +464,25 @@ impl Mp4Track {
                 }
 
                 let first_sample_in_trun = sample_id - sample_idx as u32;
-                for i in first_sample_in_trun..sample_id {
-                    sample_offset = sample_offset
-                        .checked_add(self.sample_size(i)? as u64)
-                        .ok_or(Error::InvalidData(
-                            "attempt to calculate trun entry sample offset with overflow",
-                        ))?;
+                let sample_sizes = self.trafs[traf_idx]
+                    .trun
+                    .as_ref()
+                    .map(|trun| trun.sample_sizes.as_slice())
+                    .unwrap_or(&[]);
+                for j in 0..sample_idx {
+                    let size = sample_sizes.get(j).ok_or_else(|| {
+                        Error::EntryInTrunNotFound(
+                            self.track_id(),
+                            BoxType::TrunBox,
+                            first_sample_in_trun + j as u32,
+                        )
+                    })?;
+                    sample_offset =
+                        sample_offset
+                            .checked_add(*size as u64)
+                            .ok_or(Error::InvalidData(
+                                "attempt to calculate trun entry sample offset with overflow",
+                            ))?;
                 }
 
                 Ok(sample_offset)
